@@ -265,7 +265,8 @@ def strategy(tier):
 
 def sample_view(spec):
     s = dict(spec)
-    s["ops"] = spec["ops"][:25]
+    if "ops" in s:
+        s["ops"] = spec["ops"][:25]
     return s
 
 
@@ -1081,7 +1082,60 @@ class Sim:
                                f"{exp}; cfg={self.cfg} data={sorted(self.data)}")
 
 
+def enumerate_cases(tier):
+    """datasets with more events than fit into one MiB of float64 (131072): a change
+    of an ingredient that only touches late events"""
+    return [{"kind": "bigtail", "n": 140000, "tail": 50, "seed": 3},
+            {"kind": "bigtail", "n": 270000, "tail": 1, "seed": 4}]
+
+
+def _run_bigtail(spec, rec):
+    n, tail = spec["n"], spec["tail"]
+    r = np.random.default_rng(spec["seed"])
+    rec.cls("bigtail")
+    rec.nontrivial()
+    feat_temp.register_temporary_feature("tmp_a")
+    plugs = register_plugins(0)
+    try:
+        data = {"deform": r.uniform(0.01, 0.2, n), "area_um": r.uniform(30, 300, n)}
+        sa, sb = r.uniform(0, 1, n), r.uniform(0, 1, n)
+        ta = r.normal(size=n)
+
+        def build(sa_, ta_):
+            ds = dclab.new_dataset({k: v.copy() for k, v in data.items()})
+            ds.config["user"]["k"] = 2
+            feat_temp.set_temporary_feature(ds, "ml_score_aaa", sa_.copy())
+            feat_temp.set_temporary_feature(ds, "ml_score_bbb", sb.copy())
+            feat_temp.set_temporary_feature(ds, "tmp_a", ta_.copy())
+            return ds
+        ds = build(sa, ta)
+        first = {f: np.array(ds[f][:]) for f in ("ml_class", "plug_s", "plug_f")}
+        # replace two ingredients by data that differ in the last events only
+        sa2, ta2 = sa.copy(), ta.copy()
+        sa2[-tail:] = np.where(sa[-tail:] > sb[-tail:], 0.0, 1.0)   # flips the class
+        ta2[-tail:] += 5.0
+        feat_temp.set_temporary_feature(ds, "ml_score_aaa", sa2.copy())
+        feat_temp.set_temporary_feature(ds, "tmp_a", ta2.copy())
+        fresh = build(sa2, ta2)
+        for f in ("ml_class", "plug_s", "plug_f"):
+            got, exp = np.array(ds[f][:]), np.array(fresh[f][:])
+            rec.check(not np.array_equal(exp, first[f]), f"bigtail/vacuous/{f}",
+                      "the late change does not change the feature")
+            rec.check(np.array_equal(got, exp, equal_nan=True),
+                      f"value/ds/{GROUP[f]}/after:late-events-replaced",
+                      lambda: f"{f} of a dataset with {n} events after replacing the "
+                              f"last {tail} values of an ingredient: "
+                              f"{int(np.sum(~(got == exp)))} events differ from a fresh "
+                              f"dataset")
+    finally:
+        for p_ in plugs:
+            remove_plugin_feature(p_)
+        feat_temp.deregister_all()
+
+
 def run_case(spec, rec):
+    if spec.get("kind") == "bigtail":
+        return _run_bigtail(spec, rec)
     d = boot.casedir() if spec["fmt"] in ("hdf5", "basin") else None
     sim = None
     try:
